@@ -443,8 +443,30 @@ def r05e(ctx):
     a = an(ctx.F.body(WRAP))
     fn = WRAP
     ds = a.calls(DIRECT)
-    if not ctx.check(len(ds) >= 1, 'R05e', fn, 'matcher calls', '-', '%d call(s) of the on-disk matcher' % len(ds)):
+    if not ds:
+        # lazy pipeline (`candidates.iter().map(|c| direct(c)).find_map(|r| r.transpose()).transpose()`): the matcher runs in
+        # a closure that hands its result on unchanged, and no closure of the function builds an answer of its own
+        kids, todo = [], list(ctx.F.children(a.body))
+        while todo:
+            k_ = todo.pop(0)
+            if k_ not in kids:
+                kids.append(k_)
+                todo += list(ctx.F.children(k_))
+        callers = [k_ for k_ in kids if an(k_).calls(DIRECT)]
+        okp = bool(callers)
+        for k_ in kids:
+            ak = an(k_)
+            for (_, _, kk, e) in ak.ret_sites():
+                if k_ in callers:
+                    okp = okp and ak.root_call(e) is not None and sg(ak.root_call(e)[1]) == DIRECT and e[0] == 'call'
+                else:
+                    okp = okp and not flow.mentions(e, lambda z: z[0] == 'agg' and z[1] == 'tuple')
+        rets_ = [e for (_, _, kk, e) in a.ret_sites() if kk != 'err']
+        okp = okp and all(not flow.mentions(e, lambda z: z[0] == 'agg' and z[1] == 'tuple') for e in rets_)
+        ctx.check(okp, 'R05e', fn, 'matcher calls', '-', 'the matcher runs in a closure of an iterator pipeline that hands its answers on unchanged (no closure or return builds a (count, entry) pair)',
+                  'cannot establish: 0 call(s) of the on-disk matcher in the function body, and its closures do not simply hand the matcher\'s answer on')
         return
+    ctx.check(True, 'R05e', fn, 'matcher calls', '-', '%d call(s) of the on-disk matcher' % len(ds))
 
     def whole_answer(e, depth=0):
         """e denotes the complete payload of one matcher call (possibly through a result variable holding whole answers)"""
@@ -490,6 +512,8 @@ def r05e(ctx):
                           % flow.show(se[3][0][1])[:100])
             elif se[0] == 'call' and a.root_call(se) is not None and sg(a.root_call(se)[1]) == DIRECT:
                 n += 1
+            elif se[0] == 'call' and sg(se[1]).split('::')[-1] == 'from_residual':
+                n += 1          # the failing arm of a `?`: an error value, not an answer
             else:
                 n += 1
                 ctx.check(False, 'R05e', fn, 'answer', a.loc(b, si), '', 'cannot establish that the returned value (%s) is the answer of one matcher call' % flow.show(se)[:80])
